@@ -7,6 +7,18 @@ Small task programs over the whole yield vocabulary are run by ONE
 interpreter generator; every step, wake-up and timer firing is checked
 on-line against what the property statement demands.
 
+Findings are recognised by narrow signatures and tolerated only while
+listed as open in known_findings.json:
+  C06-SEND-WOULDBLOCK-NAMEERROR   Send._sendReturnFunc: undefined `scheduler`
+  C06-AGAIN-EMPTY-STOPITERATION   AgainTask: sub-function that ends before
+                                  its first yield -> StopIteration thrown
+                                  into the caller
+  C06-TASK-TARGET-EXCEPTION-NOT-FORWARDED
+                                  Task.run (target=...) never forwards a
+                                  thrown exception to the target generator
+  C06-SEND-ERROR-SPIN             (latent, masked by the first) Send on a
+                                  socket with a fatal error retries for ever
+
 Plan layout (every element of plan["steps"] can be deleted on its own):
   ["s",  tno, op, args]     one step of task program <tno> (list order is
                             program order)
@@ -25,7 +37,8 @@ from simkit.check import load_known
 PROP = "C06"
 LEVEL = "exploration"
 BUDGET = {"quick": 10000, "thorough": 1000000}
-RULE = ("Each run: 1-6 seeded task programs of 1-12 steps (yield 0 / float / "
+RULE = ("Each run: 1-6 seeded task programs (Task subclasses and "
+        "Task(target=...)) of 1-12 steps (yield 0 / float / "
         "Sleep relative+absolute / block+schedule() / Select / Recv / Send "
         "with back-pressure and resets / Lock / Again+task_function nested "
         "to depth 3 / raise / exit), 0-3 Timers (one-shot, recurring, "
@@ -50,6 +63,10 @@ ASSUMPTIONS = [
   "among simultaneously ready tasks, which waiter receives a released lock, "
   "a sub-task killed by an error raised inside its blocking operation "
   "(caller then stays blocked), Send on a socket with a fatal error",
+  "a Task(target=...) whose generator simply ends is reported by the "
+  "scheduler as having raised (RuntimeError: generator raised "
+  "StopIteration); the task is over either way, so this is only counted "
+  "(probe target_end_reported_as_exception)",
   "task programs and readiness patterns are sampled, not enumerated",
 ]
 REAL = ["pox.lib.recoco.recoco Scheduler.cycle/schedule/fast_schedule",
@@ -79,6 +96,7 @@ CYCLE_MAX = 2.0           # recoco.CYCLE_MAXIMUM, restated independently
 KF_SEND = "C06-SEND-WOULDBLOCK-NAMEERROR"
 KF_EMPTY = "C06-AGAIN-EMPTY-STOPITERATION"
 KF_SPIN = "C06-SEND-ERROR-SPIN"
+KF_TARGET = "C06-TASK-TARGET-EXCEPTION-NOT-FORWARDED"
 
 
 # ---------------------------------------------------------------------------
@@ -143,7 +161,7 @@ class _Gen(object):
       for s in a["r"]:
         if r.chance(0.7):
           self.events.append(["h", _tick(r), r.wpick(
-              [(6, "data"), (1, "eof"), (1, "reset")]),
+              [(12, "data"), (2, "eof"), (1, "reset")]),
               {"s": s, "n": r.pick([1, 3, 10])}])
       for s in a["w"]:
         if r.chance(0.5):
@@ -155,12 +173,12 @@ class _Gen(object):
     elif op == "recv":
       if r.chance(0.8):
         self.events.append(["h", _tick(r), r.wpick(
-            [(7, "data"), (1, "eof"), (1, "reset"), (1, "exc")]),
+            [(14, "data"), (2, "eof"), (1, "reset"), (2, "exc")]),
             {"s": a["s"], "n": r.pick([1, 3, 10])}])
     elif op == "send":
       for _ in range(r.randint(0, 3)):
         self.events.append(["h", _tick(r), r.wpick(
-            [(8, "credit"), (1, "drop"), (1, "reset")]),
+            [(16, "credit"), (2, "drop"), (1, "reset")]),
             {"s": a["s"], "n": r.pick([1, 2, 4, 16, None])}])
 
   def common(self, op, tno, depth):
@@ -295,6 +313,7 @@ def gen_plan(seed, tier):
              for _ in range(6)],
     "start": [0 if r.chance(0.75) else _tick(r) for _ in range(6)],
     "fast": [r.chance(0.5) for _ in range(6)],
+    "target": [r.chance(0.2) for _ in range(6)],
     "credit": [r.wpick([(4, None), (1, 0), (1, 1), (1, 5)])
                for _ in range(12)],
     "recv_mode": r.pick(["all", "all", "choose"]),
@@ -361,6 +380,10 @@ def minimise_hint(plan):
     p = copy.deepcopy(plan)
     p["cfg"]["recv_mode"] = "all"
     out.append(p)
+  if any(cfg.get("target", [])):
+    p = copy.deepcopy(plan)
+    p["cfg"]["target"] = [False] * 6
+    out.append(p)
   if any(cfg.get("start", [])):
     p = copy.deepcopy(plan)
     p["cfg"]["start"] = [0] * 6
@@ -373,9 +396,17 @@ def minimise_hint(plan):
         for q in paths(st[1].get("sub", []), prefix + [i]):
           yield q
 
+  top_ok = ("sleep", "sleepabs", "block", "select", "recv", "send", "acq",
+            "rel", "again", "raise")
   for si, st in enumerate(plan["steps"]):
     if st[0] != "s" or st[2] != "again":
       continue
+    sub = st[3].get("sub", [])
+    if sub and all(x[0] in top_ok for x in sub):
+      # call replaced by the callee's steps
+      p = copy.deepcopy(plan)
+      p["steps"][si:si + 1] = [["s", st[1], x[0], x[1]] for x in sub]
+      out.append(p)
     for pth in paths(st[3].get("sub", []), []):
       p = copy.deepcopy(plan)
       sub = p["steps"][si][3]["sub"]
@@ -483,6 +514,7 @@ class Thread(object):
     self.expect_raise = None
     self.holding = {}       # lock no -> count (interpreter's own view)
     self.serial = 0
+    self.target = False     # created as Task(target=generator function)
 
 
 class LockM(object):
@@ -522,6 +554,20 @@ class PTask(R.Task):
 
   def run(self):
     return _interp(self._O, self._c06, self._c06.prog, 0, (), None)
+
+
+class TTask(R.Task):
+  """The same program, started the threading.Thread way:
+  Task(target=<generator function>, args=...)."""
+
+  def __init__(self, O, L):
+    self._O = O
+    self._c06 = L
+    R.Task.__init__(self, target=_interp, name="t%d" % L.tno,
+                    args=(O, L, L.prog, 0, (), None))
+
+  def __hash__(self):
+    return self._c06.tno
 
 
 def _kind(v, e):
@@ -680,6 +726,39 @@ class Oracle(object):
         return
       fr = L.frames[-1] if L.frames else None
       w = fr.wait if fr is not None else None
+      if L.target and obj is L.root:
+        gsi = (type(e) is RuntimeError
+               and str(e) == "generator raised StopIteration")
+        if gsi and L.done:
+          # Task.run lets the StopIteration of a target that simply ended
+          # escape: the scheduler reports an exception for a normal exit.
+          # The task is over either way; the property does not forbid the
+          # report, so it is only counted.
+          self.P["target_end_reported_as_exception"] += 1
+          self.expected_deaths.append(("RuntimeError", str(e)))
+          return
+        if w is not None and w["k"] == "again" and fr.sub_result is not None:
+          kind, val = fr.sub_result
+          if kind == "empty" and gsi:
+            if self.known_or_fail(
+                KF_EMPTY, "again_empty_stopiteration",
+                "task %d step %d (again): the sub-task function finished "
+                "before its first yield and StopIteration was thrown into "
+                "the caller" % (L.tno, w["i"])):
+              L.ignore = L.dead = True
+              self.expected_deaths.append(("RuntimeError", str(e)))
+            return
+          if kind == "exc" and isinstance(e, HarnessErr) and e.tag == val:
+            if self.known_or_fail(
+                KF_TARGET, "target_task_exception_not_forwarded",
+                "task %d step %d (again): the caller is a Task(target=...) "
+                "generator; its sub-task raised HarnessErr(%s) but the "
+                "exception never reached the caller's code: Task.run() "
+                "received it instead and the task was de-scheduled"
+                % (L.tno, w["i"], val)):
+              L.ignore = L.dead = True
+              self.expected_deaths.append(("HarnessErr", e.tag))
+            return
       if (isinstance(e, NameError) and "scheduler" in str(e)
           and w is not None and w["k"] == "send" and obj is fr.obj):
         sk = w["sock"]
@@ -1591,7 +1670,9 @@ def _drive(sim, sched, plan, O):
   for tno in sorted(progs):
     L = Thread(tno, progs[tno])
     O.threads[tno] = L
-    L.root = PTask(O, L)
+    tg = cfg.get("target", [False] * 6)
+    L.target = bool(tg[tno % len(tg)])
+    L.root = TTask(O, L) if L.target else PTask(O, L)
     p = prio[tno % len(prio)]
 
     def go(L=L, p=p, f=fast[tno % len(fast)]):
